@@ -97,6 +97,7 @@ pub fn run(args: &[String]) -> i32 {
         "C16" => crate::h_outline::run(&a),
         "C17" => crate::h_step::run(&a),
         "C18" => crate::h_retry::run(&a),
+        "C19" => crate::zoo::run(&a),
         other => {
             eprintln!("hist: no engine for {other}");
             return 2;
@@ -125,6 +126,7 @@ pub fn replay(j: &serde_json::Value) -> i32 {
         "C16" => crate::h_outline::replay(j),
         "C17" => crate::h_step::replay(j),
         "C18" => crate::h_retry::replay(j),
+        "C19" => crate::zoo::replay(j),
         _ => 2,
     }
 }
